@@ -26,8 +26,9 @@ from ..core import Discard, Stats, hyp_search, subseed
 PID = "C22"
 RULE = (
     "probes: for every MVP numeric, conversion, comparison and memory instruction a module with one exported "
-    "function `local.get*; op`, called with all combinations of a boundary operand pool (quick: 10-16 values per "
-    "type, thorough: 28-60 plus Hypothesis values) on targets python and native; programs: Hypothesis modules "
+    "function `local.get*; op`, called with all combinations of a boundary operand pool (quick: 12-19 values per "
+    "type, thorough: 22-57 values per type) on targets python and native, plus one module with every load/store "
+    "executed on boundary values and addresses; programs: Hypothesis modules "
     "from vf/wasmgen.py (nested block/loop/if, br/br_if/br_table, calls, call_indirect, locals, globals, memory, "
     "data/elem segments, start) with 1-4 invocations on boundary arguments, one target per case. Compared with "
     "V8: each result bitwise (NaN as a class), trap vs no trap, exported globals, memory size and sha256. "
@@ -51,7 +52,7 @@ LEVEL_TEXT = (
     "Execution semantics depend on operand values and program shape, so a differential search with a reference "
     "engine is the level that can reach them; open findings are excluded by construction and listed."
 )
-REGISTER = False
+REGISTER = True
 
 TARGETS = ("python", "native")
 
@@ -356,18 +357,15 @@ def known_probe(op, args, target):
 
 
 def probe_groups():
-    """Ops grouped by signature, at most 16 per module."""
-    by = {}
+    """Ops grouped into a few modules (instantiation dominates the cost): binary ops per operand type,
+    and all unary ops and conversions together."""
+    groups = {}
     for op, (ins, outs) in sorted(R.SIG.items()):
         if ".load" in op or ".store" in op:
             continue
-        by.setdefault((tuple(ins), tuple(outs)), []).append(op)
-    groups = []
-    for key in sorted(by):
-        ops = by[key]
-        for i in range(0, len(ops), 16):
-            groups.append(ops[i : i + 16])
-    return groups
+        key = "bin-" + ins[0] if len(ins) == 2 else "unary"
+        groups.setdefault(key, []).append(op)
+    return [groups[k] for k in sorted(groups)]
 
 
 def _single(op, args_t, args_v, target):
@@ -395,7 +393,11 @@ def _probe_worker(arg):
                 continue
             calls.append(("p%d" % k, op, list(ins), list(combo)))
     case = {"desc": desc, "calls": [[f, [[t, v] for t, v in zip(ts, vs)]] for f, _, ts, vs in calls], "target": target}
-    wasm, info, plan, ref = reference(case)
+    try:
+        wasm, info, plan, ref = reference(case)
+    except Discard as d:
+        stats.discard(d.reason)
+        return stats, fails
     todo = list(range(len(calls)))
     got_calls = {}
     rounds = 0
@@ -429,7 +431,11 @@ def _probe_worker(arg):
         single = None
         if "killed" in g:
             single = _single(op, ts, vs, target)
-            msg = check_case(single)  # re-run alone (three children)
+            try:
+                msg = check_case(single)  # re-run alone (three children)
+            except Discard as d:
+                stats.discard(d.reason)
+                continue
             if msg is None:
                 stats.notes.append("probe %s%r killed the batch child (%s) but not when run alone" % (op, vs, g["killed"]))
                 continue
@@ -455,7 +461,11 @@ def _probe_worker(arg):
     # a sample of the excluded killing operands is evaluated anyway (each needs its own children)
     for op, ts, vs in skipped_kill[:: max(1, len(skipped_kill) // (1 if pool_name == "quick" else 6))][: 1 if pool_name == "quick" else 6]:
         single = _single(op, ts, vs, target)
-        msg = check_case(single)
+        try:
+            msg = check_case(single)
+        except Discard as d:
+            stats.discard(d.reason)
+            continue
         stats.case((target, op, tuple(vs)), True, None, classes=("probe:" + target, "probe-kill-sample"))
         if msg is not None:
             kid = classify(single, msg)
@@ -709,7 +719,11 @@ def _mem_worker(arg):
     if oob < 2:
         stats.excluded["C22-KF11"] += 1
     case = mem_probe_case(target, quick, oob)
-    wasm, info, plan, ref = reference(case)
+    try:
+        wasm, info, plan, ref = reference(case)
+    except Discard as d:
+        stats.discard(d.reason)
+        return stats, fails
     got = run_target(wasm, target, info, plan)
     if got["status"] == "timeout":
         stats.discard("timeout:" + target)
@@ -746,15 +760,15 @@ def run(ctx):
     preload()
     open_ids = core.open_finding_ids(PID) - set(os.environ.get("VERIF_ASSUME_FIXED", "").split(","))  # validation of fixes/*.diff
     tier = "quick" if ctx.quick else "full"
-    sizes = dict(max_funcs=ctx.scale(3, 4), fuel=ctx.scale(30, 45), depth=ctx.scale(4, 5), budget_s=ctx.scale(40, 1500),
+    sizes = dict(max_funcs=ctx.scale(3, 4), fuel=ctx.scale(30, 45), depth=ctx.scale(4, 5), budget_s=ctx.scale(150, 1500),
                  shrink_s=ctx.scale(40, 240))  # fmt: skip
-    n = ctx.scale(5, 250)
+    n = ctx.scale(4, 250)
     nprog = ctx.scale(12, 16)
     # one job list, longest jobs first, so that 16 workers stay busy
     jobs = [("program", (subseed(ctx.seed, PID, w), n, TARGETS[w % 2], open_ids, sizes)) for w in range(nprog)]
     jobs += [("mem", (t, ctx.quick, open_ids)) for t in TARGETS]
     pj = [("probe", (ops, target, tier, open_ids, None)) for target in TARGETS for ops in probe_groups()]
-    pj.sort(key=lambda j: -len(j[1][0]) * (2 if len(R.SIG[j[1][0][0]][0]) == 2 else 1))
+    pj.sort(key=lambda j: -len(j[1][0]) * (8 if len(R.SIG[j[1][0][0]][0]) == 2 else 1))
     jobs += pj
     ctx.pmap(_job, jobs)
     ctx.extra["targets_covered"] = list(TARGETS)
